@@ -472,10 +472,12 @@ func (sc *serverConn) handleStreams() {
 			// nobody will send. Whatever is behind it stays open otherwise.
 			_ = strm.ctx.Response.CloseBodyStream()
 
+			verifPoolPut(4, strm.ctx)
 			ctxPool.Put(strm.ctx)
 			strm.ctx = nil
 		}
 
+		verifPoolPut(3, strm)
 		streamPool.Put(strm)
 	}
 
@@ -1030,6 +1032,7 @@ var ctxPool = sync.Pool{
 
 func (sc *serverConn) createStream(c net.Conn, frameType FrameType, strm *Stream) {
 	ctx := ctxPool.Get().(*fasthttp.RequestCtx)
+	verifPoolGet(4, ctx)
 	ctx.Request.Reset()
 	ctx.Response.Reset()
 
